@@ -219,6 +219,9 @@ func c03Oracle(info *runInfo, res *verifsim.Result) {
 			res.Violate("C03.model", "model", "%s", why)
 			continue
 		}
+		if in.ambiguous {
+			continue
+		}
 		m := expectRA(*in)
 		if m.fail != "" {
 			if !strings.HasPrefix(m.fail, "model:") {
